@@ -14,6 +14,8 @@ type EV struct {
 	V Val
 	T types.Type
 	pkgName string // the expression named a package (for pkg.Var)
+	cell    *Term  // a captured variable of a closure under contract: its heap cell (the value is read in the
+	// state of the evaluation context: current state, or the pre-state inside old())
 }
 
 type evalCtx struct {
@@ -151,6 +153,11 @@ func (c *evalCtx) evalIdent(name string) EV {
 		}
 	}
 	if ev, ok := c.names[name]; ok {
+		if ev.cell != nil && ev.T != nil {
+			if _, isStruct := structOf(ev.T); !isStruct {
+				return EV{V: c.vc.loadMem(c.st, ev.cell, ev.T), T: ev.T}
+			}
+		}
 		return ev
 	}
 	if c.fr != nil {
